@@ -162,7 +162,11 @@ def observe(cfg):
             y0 = onp.asarray(f(x))
             W, exact = onp.zeros((realify(y0).size, realify(x).size)), False
         else:
-            W, y0, exact = numpy_jacobian(info.get("f_numpy", f), x)
+            W, y0, exact = numpy_jacobian(info.get("f_jac") or info.get("f_numpy", f), info.get("x_jac", x))
+            if info.get("f_jac") or "x_jac" in info:
+                # the Jacobian is taken of a smooth stand-in (e.g. the identity for a precision-changing cast, whose own differences are
+                # rounding noise); the value, shape and dtype of the result are those of the real call
+                y0 = onp.asarray(info.get("f_numpy", f)(x))
     except Skip as s:
         obs["status"] = "skip:" + str(s)
         return obs
@@ -170,6 +174,8 @@ def observe(cfg):
         obs["status"] = "numpy_rejects:" + type(ex).__name__
         return obs
     obs["exact"] = bool(exact)
+    single = bool(info.get("single"))
+    ts = 2.0 ** -10 if single else 1.0          # single-precision operands: entries compared at 2^-10 relative
     obs["in"] = struct(x)
     obs["out"] = struct(y0)
     obs["oshape_np"] = list(onp.shape(y0))
@@ -231,7 +237,7 @@ def observe(cfg):
         v["struct"] = st if st is not None else struct(vspace(x).zeros())
         if rows is not None:
             RR = onp.array(rows, dtype=float).reshape(m, n)
-            v["bad"], v["nbad"] = dmat(RR, W)
+            v["bad"], v["nbad"] = dmat(RR, W, ts)
         elif rows is None:
             v["bad"], v["nbad"] = [[0, 0, 2 ** 30]], 1
     except Exception as ex:     # noqa
@@ -283,7 +289,7 @@ def observe(cfg):
         j["struct"] = st if st is not None else struct(y0)
         if cols is not None:
             FR = onp.array(cols, dtype=float).reshape(n, m).T
-            j["bad"], j["nbad"] = dmat(FR, W)
+            j["bad"], j["nbad"] = dmat(FR, W, ts)
         elif cols is None:
             j["bad"], j["nbad"] = [[0, 0, 2 ** 30]], 1
     except Exception as ex:     # noqa
@@ -297,7 +303,7 @@ def observe(cfg):
     if RR is not None and FR is not None:
         adj["checked"] = True
         scale = onp.maximum(1.0, onp.maximum(onp.abs(RR), onp.abs(FR)))
-        bad = onp.argwhere(onp.abs(RR - FR) / scale > TOL_ADJ)
+        bad = onp.argwhere(onp.abs(RR - FR) / scale > (1e-4 if single else TOL_ADJ))
         adj["nbad"] = int(len(bad))
         adj["bad"] = [[int(a), int(b)] for a, b in bad[:4]]
     rs = onp.random.RandomState(cfg["id"] % 1000)
@@ -308,20 +314,20 @@ def observe(cfg):
             g12 = unreal(a_ * c1 + b_ * c2, y0)
             lhs = realify(onp.conj(vjp(onp.conj(g12) if onp.ndim(y0) or onp.iscomplexobj(y0) else float(onp.real(g12)))))
             rhs = (a_ * c1 + b_ * c2) @ RR
-            adj["lin_vjp"] = int(onp.sum(onp.abs(lhs - rhs) / onp.maximum(1.0, onp.abs(rhs)) > 1e-10))
+            adj["lin_vjp"] = int(onp.sum(onp.abs(lhs - rhs) / onp.maximum(1.0, onp.abs(rhs)) > (1e-3 if single else 1e-10)))
         if FR is not None and n > 0:
             c1, c2 = rs.randint(-3, 4, n).astype(float), rs.randint(-3, 4, n).astype(float)
             v12 = unreal(2.0 * c1 - 3.0 * c2, x)
             t = make_jvp(f)(xin)(v12 if onp.ndim(x) or onp.iscomplexobj(x) else float(onp.real(v12)))[1]
             rhs = FR @ (2.0 * c1 - 3.0 * c2)
-            adj["lin_jvp"] = int(onp.sum(onp.abs(realify(t) - rhs) / onp.maximum(1.0, onp.abs(rhs)) > 1e-10))
+            adj["lin_jvp"] = int(onp.sum(onp.abs(realify(t) - rhs) / onp.maximum(1.0, onp.abs(rhs)) > (1e-3 if single else 1e-10)))
     except Exception as ex:     # noqa
         adj["lin_error"] = type(ex).__name__
     # ---------------- linearity as a *traced* function, at the origin: d/dg vjp(g) at g = 0 is vjp itself (and likewise for the JVP).
     # A rule that is numerically linear but cuts the dependence on g for special values of g (a mask on g == 0, a branch on its sign)
     # is exact at first order and silently wrong as soon as the cotangent is itself differentiated (nested / higher-order use).
     adj["lin0_vjp"], adj["lin0_jvp"], adj["lin0_checked"] = 0, 0, 0
-    if not kink and cfg["id"] % 2 == 0:
+    if not kink and cfg["id"] % 2 == 0 and not single:
         if RR is not None and m > 0 and not v.get("late"):
             c1 = rs.randint(-3, 4, m).astype(float)
             gdir = onp.conj(unreal(c1, y0))
@@ -364,7 +370,7 @@ def observe(cfg):
     except Exception as ex:     # noqa
         pr["nest_raised"] = type(ex).__name__
     obs["primal"] = pr
-    if cfg.get("second") and not kink and cfg["kind"] == "rr":
+    if cfg.get("second") and not kink and cfg["kind"] == "rr" and not single:
         try:
             obs["second"] = second_order(f, xin, y0)
         except Exception as ex:     # noqa  a problem of the comparison code itself: not evaluated, counted
